@@ -13,6 +13,9 @@ ASSUMPTIONS = [
     'touch PROCESS_STACK itself and does not call pause/kill/fail (those are C03-C05)',
     'an await is a bare yield to the loop (asyncio.sleep(0)): the task is ready again at once and the harness picks the order; '
     'waiting processes are resumed by the harness between two callbacks',
+    'restore clause, reference value: the "previous value" for the first scope of a task is what the code that created the task '
+    'observed at that moment (contextvars: a task starts with a copy of its creator\'s context); the monitors take it from the '
+    'implementation\'s own samples at the creation point (on_create hook, call_soon site), not from the model',
     'generated programs are finite (a class only launches / executes later classes; callbacks only execute the last, leaf class); '
     'launch() and out() are only called from steps (a callback may run after its process was closed)',
     'the hook clause of the property is a recorded finding (F14): lifecycle hooks fired by transition_to / the constructor / close() '
@@ -139,7 +142,7 @@ def job(args):
 def run(ctx):
     rng = ctx.rng
     deep = ctx.thorough
-    cap = 60000 if deep else 6000
+    cap = 20000 if deep else 6000
     jobs = []
     for name, scn in pg.corpus():
         jobs.append(('explore', (name, scn, cap, rng.randrange(1 << 30)), ctx.model.available))
